@@ -36,9 +36,15 @@ def run(chk, repo):
             chk.require(size.is_const() and size.value() == 360, "C16-V1", f"volume_directory_record.{name}",
                         f"{name} is 360 bytes", f"{name} is {size} bytes, the format's record is 360", key=f"size:{name}")
     # every surfacing volume-directory field is text: only the text adapter's semantics matter here
-    for key in sorted(adapters_used(leaves)):
-        if key[1] == "PaddedString":
-            check_adapter(chk, "C16-V1", repo, L.ev, key)
+    from .adapter_eval import adapter_values
+    chk.rule("C16-V8", "the text adapter of the volume-directory fields decodes representative field contents as specified (evaluation on field bytes)", 1)
+    chk.attempt(adapter_values, chk, repo, L, "C16-V8", ("volume",))
+
+    def text_adapter_form(chk, repo, L, leaves):
+        for key in sorted(adapters_used(leaves)):
+            if key[1] == "PaddedString":
+                check_adapter(chk, "C16-V1", repo, L.ev, key)
+    chk.attempt(text_adapter_form, chk, repo, L, leaves, covered_by="adapter_values")
     from ..shapes_rules import link_tables
     link_tables(chk, repo, L, "C16")
     from .common_rules import parse_and_transform, to_dict_contract
